@@ -237,6 +237,11 @@ PROGRAMS = {
                              act('set', light('Top'))],
     'output': regs(hue=120, saturation=50, brightness=75, kelvin=2000) + [pr(s('-----'), True), pr(r('hue')), pr(r('saturation')),
                pr(r('brightness')), pr(r('kelvin'), True), pr(s('-----'), True), pr(None, True), pr(n(5)), act('on', ALL), pr(n(6))],
+    # what print writes for operator chains written without parentheses (grouping is part of the text that comes out)
+    'output-chains': [pr(b('^', n(2), b('^', n(3), n(2))), True), pr(b('-', b('-', n(10), n(4)), n(3)), True),
+                      pr(b('/', b('/', n(64), n(4)), n(2)), True), pr(b('+', b('*', n(2), n(3)), b('*', n(4), n(5))), True),
+                      pr(b('^', n(2), b('^', n(2), b('^', n(1), n(3)))), True), pr(b('-', n(20), b('^', n(2), b('^', n(2), n(2))))),
+                      pr(b('*', b('^', n(3), b('^', n(2), n(2))), n(2)), True)],
     'divide-by-zero': [pr(n(1), True), act('on', ALL), assign('z', 0), pr(b('/', n(5), v('z'))), act('off', ALL), pr(n(2), True)],
 }
 
